@@ -40,7 +40,7 @@ assumptions = [
 
 NET_FAULTS = [F_REFUSED, F_RESET_BEFORE, F_RESET_AFTER, F_TIMEOUT, F_TIMEOUT_AFTER, F_HTTP500, F_SHORT_LEN,
               F_CUT_CLOSE]
-ORGFID = [(None, None), ("ORGX", "1"), ("ORGY", "7")]
+ORGFID = [(None, None), ("ORGX", "1"), ("ORGY", "7"), ("Org & Co", "F-9")]
 VERSIONS = [203, 102, 220, 103, 151, 160, 200, 211]
 MSGSETS = [("BANK", "CC", "INV"), ("BANK",), peers.ALL_MSGSETS, ("INV", "CC")]
 DEFAULT_UA = "InetClntApp/3.0"
@@ -110,7 +110,7 @@ class C14(World):
     def draw_requests(self):
         from ofxtools.Client import StmtRq, CcStmtRq, InvStmtRq, StmtEndRq, CcStmtEndRq
         ch = self.ch
-        n = ch.pick("rq.n", 5)
+        n = ch.geometric("rq.n", 2, 9)
         out = []
         d0 = datetime.datetime(2020, 1, 1, tzinfo=UTC)
         for i in range(n):
@@ -256,7 +256,7 @@ class C14(World):
                              f"{where}: User-Agent {rq.header_all('User-Agent')!r}, configured {want_ua!r}")
             # I4 -- body
             info = self.classify_body(rq.body)
-            dest = (c.scheme, c.host, c.port, rq.target)
+            dest = (c.scheme, c.host.lower(), c.port, rq.target)
             if not info["ok"]:
                 self.violate("C14", "I4-body", "unreadable", f"{where}: body is not one OFX request file: {info['why']}")
                 continue
@@ -321,7 +321,7 @@ class C14(World):
                 k, eq, v = part.strip().partition("=")
                 if eq:
                     sent.append((k, v))
-        host = c.host
+        host = c.host.lower()          # host names (and cookie domains) are case-insensitive
         allowed = inst.allowed.get(host, set())
         for k, v in sent:
             if k != "sid" or v not in allowed:
@@ -382,6 +382,11 @@ class C14(World):
                              ["v1u", "v1c"][ch.pick("fi.form", 2)], ch.flag("fi.pretty", 0.3),
                              msgsets=MSGSETS[ch.pick("fi.msgsets", len(MSGSETS))], url_index=urls[i])
             fi.behaviour_fn = self.behaviour
+            fi.cookie_attrs = ch.flag("fi.cookie_attrs", 0.3)
+            fi.closing = [("Y", "Y"), ("N", "Y"), ("Y", "N"), ("N", "N")][ch.weighted("fi.closingavail", [3, 1, 1, 1])]
+            fi.profiles.clear()
+            fi.current = None
+            fi.new_profile()
         self.faults_on = ch.flag("cfg.faults", 0.5)
         if self.faults_on:
             self.enabled_faults = [k for k in NET_FAULTS if ch.flag("cfg.fault." + k, 0.5)]
